@@ -1,5 +1,7 @@
 import KoordVerif.Common.Proto
 import KoordVerif.Model.C19
+import KoordVerif.Model.C19Dev
+import KoordVerif.Model.C19Rsv
 /-
 Driver for C19.  A case belongs to one harness; the first token of its first op line selects the
 sub-model (`dev` -> Model/C19Dev, `rsv` -> Model/C19Rsv, everything else -> this file).
@@ -179,6 +181,8 @@ def runCase (lines : List String) : List String :=
   | [] => []
   | l :: _ =>
     match toks l with
+    | "dev" :: _ => KoordVerif.C19.Dev.runCase lines
+    | "rsv" :: _ => KoordVerif.C19.Rsv.runCase lines
     | _ => runOwn lines
 
 end KoordVerif.C19
